@@ -38,21 +38,21 @@ theorem applyGateDM_g1 (conj : α → α) (m : Nat → Nat → α) (q : Nat) (ρ
 theorem gX_eq (q : Nat) : (gX q : MGate α) = { mat := matX, targets := [q] } := rfl
 theorem gZ_eq (q : Nat) : (gZ q : MGate α) = { mat := matZ, targets := [q] } := rfl
 
-theorem ptrace_single (q : Nat) (ρ : DM α) (x y : Lab) :
-    ptrace [q] ρ x y = ρ (x.set q false) (y.set q false) + ρ (x.set q true) (y.set q true) := by
-  simp [ptrace, sumOver, Lab.setMany_single]
+theorem ptraceSet_single (q : Nat) (ρ : DM α) (x y : Lab) :
+    ptraceSet [q] ρ x y = ρ (x.set q false) (y.set q false) + ρ (x.set q true) (y.set q true) := by
+  simp [ptraceSet, sumOver, Lab.setMany_single]
 
 theorem traceZero_set (q : Nat) (ρ : DM α) (x y : Lab) (a b : Bool) :
     traceZero q ρ (x.set q a) (y.set q b)
       = if a = false ∧ b = false then
           ρ (x.set q false) (y.set q false) + ρ (x.set q true) (y.set q true) else 0 := by
-  simp [traceZero, ptrace_single, Lab.set_set]
+  simp [traceZero, ptraceSet_single, Lab.set_set]
 
 theorem traceZero_eq (q : Nat) (ρ : DM α) (x y : Lab) :
     traceZero q ρ x y
       = if x q = false ∧ y q = false then
           ρ (x.set q false) (y.set q false) + ρ (x.set q true) (y.set q true) else 0 := by
-  simp [traceZero, ptrace_single]
+  simp [traceZero, ptraceSet_single]
 
 /-- the closed form of the reset channel, entry by entry: with `t = ρ₀₀ + ρ₁₁` (partial trace
 over `q`), `c0·ρ + p0·t⊗|0⟩⟨0| + p1·t⊗|1⟩⟨1|`. -/
@@ -193,7 +193,7 @@ def depolSpec (c0 w : α) (q : Nat) (ρ : DM α) : DM α := fun x y =>
 theorem depolFast_single_eq_spec (c0 w : α) (q : Nat) (ρ : DM α) :
     depolFast c0 w [q] ρ = depolSpec c0 w q ρ := by
   funext x y
-  simp only [depolFast, depolSpec, ptrace_single, List.all_cons, List.all_nil, Bool.and_true]
+  simp only [depolFast, depolSpec, ptraceSet_single, List.all_cons, List.all_nil, Bool.and_true]
   cases hx : x q <;> cases hy : y q <;> simp
 
 theorem pauliCodes_one : pauliCodes 1 = [[0], [1], [2], [3]] := by
